@@ -35,6 +35,16 @@ def run_hist(seed, n):
             xknx, sent = make_xknx(loop, rate_limit=0)
             await start_xknx(xknx)
             tq = xknx.telegram_queue
+            fail = [False]
+            real_send = xknx.knxip_interface.send_cemi
+
+            async def send_cemi(cemi):            # the interface refuses some outgoing telegrams (tunnel down)
+                if fail[0]:
+                    from xknx.exceptions import CommunicationError  # noqa: PLC0415
+                    raise CommunicationError("not connected")
+                await real_send(cemi)
+
+            xknx.knxip_interface.send_cemi = send_cemi
             called, dev = [], []
             regs = []  # Callback objects in registration order
             ids = {}
@@ -77,24 +87,26 @@ def run_hist(seed, n):
                     ids[id(obj)] = counter
                     regs.append(obj)
                     ev.append({"ev": "reg", "all": 1 if mode == "all" else 0, "den": sorted(den), "out": int(out), "raises": int(raises),
-                               "k": 0, "dst": 0, "outgoing": 0, "called": [], "devices": 0, "num": counter})
+                               "k": 0, "dst": 0, "outgoing": 0, "called": [], "devices": 0, "num": counter, "sendfail": 0})
                 elif r < 0.4 and regs:
                     k = rnd.randrange(len(regs))
                     tq.unregister_telegram_received_cb(regs.pop(k))
-                    ev.append({"ev": "unreg", "k": k + 1, "all": 0, "den": [], "out": 0, "raises": 0, "dst": 0, "outgoing": 0, "called": [], "devices": 0})
+                    ev.append({"ev": "unreg", "k": k + 1, "all": 0, "den": [], "out": 0, "raises": 0, "dst": 0, "outgoing": 0, "called": [], "devices": 0, "sendfail": 0})
                 else:
                     d = rnd.randrange(len(ADDR))
                     outgoing = rnd.random() < 0.4 and d != 0
                     dst = IndividualAddress("1.2.3") if d == 0 else parse_device_group_address(ADDR[d])
                     called.clear()
                     dev.clear()
+                    sendfail = 1 if outgoing and not ADDR[d].startswith("i-") and rnd.random() < 0.25 else 0
+                    fail[0] = bool(sendfail)
                     tg = Telegram(destination_address=dst, payload=DeviceDescriptorRead() if d == 0 else GroupValueWrite(DPTBinary(1)),
                                   direction=TelegramDirection.OUTGOING if outgoing else TelegramDirection.INCOMING)
                     xknx.telegrams.put_nowait(tg)
                     await asyncio.wait_for(xknx.telegrams.join(), 30)
                     pos = [next(i for i, o in enumerate(regs) if ids[id(o)] == c) + 1 if any(ids[id(o)] == c for o in regs) else 99 for c in called]
-                    ev.append({"ev": "tg", "dst": d, "outgoing": int(outgoing), "called": pos, "devices": 1 if (dev or d == 0) else 0,
-                               "k": 0, "all": 0, "den": [], "out": 0, "raises": 0})
+                    ev.append({"ev": "tg", "dst": d, "outgoing": int(outgoing), "called": pos, "devices": 1 if (dev or (d == 0 and not sendfail)) else 0,
+                               "k": 0, "all": 0, "den": [], "out": 0, "raises": 0, "sendfail": sendfail})
             await stop_xknx(xknx)
 
         loop.run_until_complete(main())
